@@ -494,6 +494,21 @@ def recv_oracle(run, case, props, wf):
             else:
                 continue
             break
+    if props & {'C01', 'C02'}:
+        # what one source's held set contains at any moment was published under one id: a set that mixes ids is handed over as it
+        # is once it is complete (it may sit there for a while first)
+        done = False
+        for k, it in enumerate(case['items']):
+            if it[2] is None or done:
+                continue
+            for i, sdig in enumerate(it[2][1]):
+                pays = [x[1] for x in (sdig[2] or []) if x[1] is not None and x[1] in prov]
+                mids = sorted({prov[x]['mid'] for x in pays})
+                if len(mids) > 1:
+                    run.violation('held-set:mixed-ids src=%d ids=%s %s' % (i, mids, 'eph' if cfg['srcs'][i]['eph'] else 'sync'),
+                                  'after item %d source %d holds a set with frames published under ids %s' % (k, i, mids), summary)
+                    done = True
+                    break
     for c in case['calls']:
         ret = c.get('ret')
         if not ret:
@@ -1237,6 +1252,14 @@ CORPUS_RECV = [
                  ['deliver', 0, _m('//', 10, -3, [], 0)], ['deliver', 0, _m('/b/', 10, 0, ['a', 'b'], 2)],
                  ['deliver', 0, _m('/a/', 10, 1, ['a', 'b'], 3)], ['deliver', 0, _m('/b/', 10, 1, ['a', 'b'], 4)],
                  ['poll', [0], 0], ['poll', [0], 0], ['poll', [0], 0], ['poll', [0], 0], ['poll', [], 0]]),
+    # W7: the mirror image - the half that was received is the LAST topic (the first one was lost on the way), and the restarted
+    #     publisher's first topic arrives next
+    dict(name='W7', cfg=dict(balance=False, low_latency=False, srcs=[dict(eph=1, mode=[['a', 'a'], ['b', 'b']])]),
+         script=[['call', None, None, 0], ['deliver', 0, _m('/b/', 10, 3, ['a', 'b'], 1)], ['poll', [0], 0],
+                 ['deliver', 0, _m('//', 10, -3, [], 0)], ['deliver', 0, _m('/a/', 10, 0, ['a', 'b'], 2)],
+                 ['deliver', 0, _m('/b/', 10, 0, ['a', 'b'], 3)],
+                 ['poll', [0], 0], ['poll', [0], 0], ['poll', [0], 0], ['poll', [], 0], ['poll', [], 0], ['poll', [], 0],
+                 ['poll', [], 0], ['poll', [], 0], ['poll', [], 0]]),       # (the trailing empty polls are spare)
 ]
 
 
